@@ -6,6 +6,7 @@ VERUS_UNITS = {
     'helper': 'build_helper.rs: every BuildHelper fn, VacantIter::next, ListItem accessors; sorted circular vacant list invariant; no assert/unwrap/index/overflow can fail',
     'build_bw': 'bytewise/builder.rs init_array, find_base, check_valid_base, extend_array, remove_invalid_checks, build_double_array + State setters + intpack: no assert/debug_assert/unwrap/index/arithmetic can fail for any num_free_blocks >= 1 and any tree-shaped NFA; result satisfies da_safe (len % 256 == 0, base < len, fail < len)',
     'build_cw': 'charwise/builder.rs init_array, find_base, verify_base, extend_array, build_double_array + charwise State (Default, setters), CodeMapper::get: stage A (no panic for any num_free_blocks >= 1, any tree-shaped NFA whose labels the mapper covers; len % block_len == 0, block_len a power of two >= alphabet size, base < len, fail < len)',
+    'nfa_add': 'nfa_builder.rs NfaBuilder::{add, skip_shadowed, child_id}, NfaBuilderState::default, MatchKind::is_leftmost_first, EdgeLabel trait contract: Err(InvalidArgument) iff empty/too long, Err(DuplicatePattern) only for a pattern seen before, Ok only for a new pattern and then seen\' = seen + {pattern}; trie invariant; recorded length == byte length; shadowed patterns are recorded but add no state',
     'ser': 'serializer.rs trait contracts, Option<NonZeroU32>, Vec<S>; U24nU8, State, Output<V>, MatchKind (+From<u8>/u8::from); bytewise serialize/deserialize_unchecked; C09 client',
     'search_cw': 'charwise.rs child_index_unchecked / next_state_id_unchecked / next_state_id_leftmost_unchecked, CodeMapper::get, State accessors',
     'utf8': 'charwise/iter.rs CharWithEndOffsetIterator::next against the UTF-8 table: offsets, scalar values, unwrap_unchecked/from_u32_unchecked preconditions',
@@ -47,7 +48,7 @@ PROPS = {
     'C05': dict(verus=['search_bw', 'iter_bw', 'search_cw', 'utf8', 'iter_cw'], kani=[], bounded=True,
                 chain='FindOverlappingNoSuffixIterator::next refines nosuf_stream with persistent state (P); rest as C01',
                 assumed=[NFA_ASSUMED, DA_ASSUMED, AC_ASSUMED]),
-    'C06': dict(verus=['search_bw', 'iter_bw', 'search_cw', 'utf8', 'iter_cw', 'ser'], kani=['num_bytes_labels'], bounded=True,
+    'C06': dict(verus=['search_bw', 'iter_bw', 'search_cw', 'utf8', 'iter_cw', 'ser', 'nfa_add'], kani=['num_bytes_labels'], bounded=True,
                 chain='every returned Match is mk_match(outputs[opos-1], end) (P); outputs[j] == (value_i, |p_i|) (B)',
                 assumed=[NFA_ASSUMED, DA_ASSUMED]),
     'C07': dict(verus=['search_bw', 'iter_bw', 'helper', 'build_bw', 'build_cw', 'search_cw', 'utf8', 'iter_cw', 'ctor_bw', 'ctor_cw'], kani=['from_u32', 'utf8_decoder_two_chars'], bounded=True,
@@ -57,8 +58,8 @@ PROPS = {
     'C09': dict(verus=['ser'], kani=KANI_SER + ['intpack_u24nu8'], bounded=True,
                 chain='byte-wise: deserialize_unchecked(serialize(a) ++ t) == (a, t) and re-serialisation reproduces the bytes (P: ser, for every V satisfying the trait contract) <- primitive LE impls (K, 13 harnesses); char-wise automaton and CodeMapper: B',
                 assumed=['user-defined V: satisfies the Serializable trait contract (ser/deser inverse, fixed width < 256 MiB)', 'derived PartialEq is structural']),
-    'C10': dict(verus=['helper', 'build_bw', 'build_cw'], kani=[], bounded=True,
-                chain='never panics: every assert!/debug_assert!/unwrap/index/arithmetic in build_helper.rs and in the byte-wise double-array construction (bytewise/builder.rs) is a discharged obligation for every num_free_blocks >= 1 and every tree-shaped NFA (P: helper, build_bw); both variants (P: helper, build_bw, build_cw); accept/reject (add), NFA passes, CodeMapper::new and the build wrappers: B',
+    'C10': dict(verus=['nfa_add', 'helper', 'build_bw', 'build_cw'], kani=[], bounded=True,
+                chain='accept/reject: NfaBuilder::add rejects exactly the empty pattern and every pattern seen before, for every match kind incl. leftmost-first shadowing (P: nfa_add, for both label types); the wrappers that call add in a loop and the index conversion: B. never panics: every assert!/debug_assert!/unwrap/index/arithmetic in build_helper.rs and in the byte-wise double-array construction (bytewise/builder.rs) is a discharged obligation for every num_free_blocks >= 1 and every tree-shaped NFA (P: helper, build_bw); both variants (P: helper, build_bw, build_cw); accept/reject (add), NFA passes, CodeMapper::new and the build wrappers: B',
                 assumed=[NFA_ASSUMED, DA_ASSUMED]),
     'C11': dict(verus=['search_bw', 'iter_bw', 'helper', 'build_bw', 'build_cw'], kani=[], bounded=True,
                 chain='search contracts depend on the array only through encodes (P side); build for every num_free_blocks (B)',
